@@ -138,11 +138,11 @@ func (c *specCtx) sortOfTypeStr(s string) (*Sort, types.Type) {
 		k := c.e.resolveType(c.pkgPath, s[4:len(s)-1])
 		return ArrSort(c.e.sortOf(k), BoolSort), nil
 	}
-	if strings.HasPrefix(s, "arr[") { // arr[K]V : raw SMT array
+	if strings.HasPrefix(s, "arr[") { // arr[K]V : raw SMT array (V may itself be arr[..].. or set[..])
 		i := strings.Index(s, "]")
 		k := c.e.resolveType(c.pkgPath, s[4:i])
-		v := c.e.resolveType(c.pkgPath, s[i+1:])
-		return ArrSort(c.e.sortOf(k), c.e.sortOf(v)), nil
+		vs, _ := c.sortOfTypeStr(s[i+1:])
+		return ArrSort(c.e.sortOf(k), vs), nil
 	}
 	t := c.e.resolveType(c.pkgPath, s)
 	return c.e.sortOf(t), t
